@@ -5,6 +5,7 @@ pub mod c07;
 pub mod c08;
 pub mod c09;
 pub mod c10;
+pub mod c11;
 pub mod c13;
 pub mod c14;
 pub mod c15;
@@ -12,7 +13,7 @@ pub mod c16;
 pub mod c17;
 
 pub fn all() -> Vec<&'static dyn Prop> {
-    vec![&c07::C07, &c08::C08, &c09::C09, &c10::C10, &c13::C13, &c14::C14, &c15::C15, &c16::C16, &c17::C17]
+    vec![&c07::C07, &c08::C08, &c09::C09, &c10::C10, &c11::C11, &c13::C13, &c14::C14, &c15::C15, &c16::C16, &c17::C17]
 }
 
 pub fn find(id: &str) -> Option<&'static dyn Prop> {
